@@ -373,9 +373,78 @@ def h_two(prio0: int, prio1: int, start1: int, exit0_at: int, kill0: bool, t0: b
     return vkopf.verdict(ok)
 
 
+def smt_keepalive(cell=None, replay=None):
+    """E4: the keep-alive period, from the source of `keepalive`: the statements of its loop body that compute the sleep are
+    translated (random.randint(5, 10) = an arbitrary integer in that range) and z3 decides, for EVERY lifetime >= 2:
+    1 <= sleep <= lifetime - 1 (the record is renewed before it expires, and the API is not flooded: at least 1 s apart),
+    and sleep >= lifetime - 10 (no needless renewals). Lifetimes 0 and 1 cannot be renewed in time by construction (stated)."""
+    import ast as _ast
+    import inspect
+    import textwrap
+    import time
+    import types
+    import z3
+    from vkopf import astsmt
+    from kopf._core.engines import peering as P
+    tree = _ast.parse(textwrap.dedent(inspect.getsource(P.keepalive)))
+    loops = [n for n in _ast.walk(tree) if isinstance(n, _ast.While)]
+    if len(loops) != 1:
+        return {'status': 'harness_error', 'message': 'keepalive no longer has exactly one loop'}
+    assigns = [st for st in loops[0].body if isinstance(st, _ast.Assign)]
+    sleeps = [n for n in _ast.walk(loops[0]) if isinstance(n, _ast.Call) and _ast.unparse(n.func) == 'asyncio.sleep']
+    if len(sleeps) != 1 or len(sleeps[0].args) != 1:
+        return {'status': 'harness_error', 'message': 'keepalive no longer has exactly one asyncio.sleep(x) in its loop'}
+
+    def concrete(L, j):
+        ns = {'settings': types.SimpleNamespace(peering=types.SimpleNamespace(lifetime=L)),
+              'random': types.SimpleNamespace(randint=lambda a, b: j)}
+        exec(compile(_ast.Module(body=assigns, type_ignores=[]), '<keepalive>', 'exec'), ns)
+        return eval(compile(_ast.Expression(body=sleeps[0].args[0]), '<keepalive>', 'eval'), ns)
+    if replay is not None:
+        L, j = replay['lifetime'], replay['jitter']
+        sl = concrete(L, j)
+        return bool(1 <= sl <= L - 1 and sl >= L - 10)
+    t0 = time.time()
+    L, j = z3.Ints('lifetime jitter')
+    side = []
+
+    def randint(tr, a, b):
+        side.extend([j >= a, j <= b])
+        return j
+    try:
+        env = astsmt.translate_statements(assigns, {'settings.peering.lifetime': L}, {'random.randint': randint})
+        tr = astsmt._Tr({})
+        sleep = tr.ex(sleeps[0].args[0], env)
+    except astsmt.Unsupported as e:
+        return {'status': 'harness_error', 'message': f'keepalive arithmetic no longer translatable: {e}'}
+    for (l_, j_) in ((60, 5), (60, 10), (7, 9), (2, 5), (11, 10), (3600, 7)):
+        sv = z3.Solver()
+        sv.add(L == l_, j == j_)
+        if str(sv.check()) != 'sat' or sv.model().eval(sleep).as_long() != concrete(l_, j_):
+            return {'status': 'harness_error', 'message': 'encoding of the keep-alive arithmetic disagrees with Python'}
+    goals = {'renewed_in_time': z3.And(sleep >= 1, sleep <= L - 1), 'not_too_often': sleep >= L - 10}
+    queries = 0
+    for g, term in goals.items():
+        s = z3.Solver()
+        s.set('timeout', 60000)
+        s.add(L >= 2, *side)
+        s.add(z3.Not(term))
+        r = str(s.check())
+        queries += 1
+        if r == 'sat':
+            m = s.model()
+            return {'status': 'counterexample', 'paths': queries, 'queries': queries, 'message': f'z3: sat for {g}',
+                    'args': {'replay': {'lifetime': m.eval(L, model_completion=True).as_long(), 'jitter': m.eval(j, model_completion=True).as_long(), 'goal': g}}}
+        if r != 'unsat':
+            return {'status': 'inconclusive', 'message': f'z3 {r}', 'paths': queries, 'queries': queries}
+    return {'status': 'confirmed', 'paths': queries, 'harness_calls': queries, 'nontrivial_paths': queries, 'queries': queries,
+            'solver_s': round(time.time() - t0, 3), 'tags': {'smt_goal': queries}, 'message': 'z3: both negated goals unsat for every lifetime >= 2'}
+
+
 def obligations():
     B = [False, True]
-    obs = split(Ob('h_event', {}, timeout=900, twins=['paused', 'cleaned']), a_present=[True], b_present=[False], a_has_life=B, a_has_seen=B, own_present=B)
+    obs = [Ob('smt_keepalive', {}, engine='smt', timeout=300)]
+    obs += split(Ob('h_event', {}, timeout=900, twins=['paused', 'cleaned']), a_present=[True], b_present=[False], a_has_life=B, a_has_seen=B, own_present=B)
     obs += split(Ob('h_event', {}, timeout=900), a_present=[True], b_present=[True], a_has_life=[True], a_has_seen=[True],
                  b_has_life=[True], b_has_seen=B, own_present=[False])
     obs += split(Ob('h_event', {}, timeout=900), a_present=[False], b_present=[False], own_present=B)
